@@ -10,6 +10,7 @@ import (
 	"sort"
 	"strings"
 	"sync"
+	"sync/atomic"
 	"time"
 
 	"metacontroller/pkg/apis/metacontroller/v1alpha1"
@@ -51,6 +52,9 @@ func (h *HookRouter) RoundTrip(req *http.Request) (*http.Response, error) {
 	resp := map[string]any{"children": []any{}, "attachments": []any{}, "status": map[string]any{"seen": true}}
 	if strings.HasSuffix(req.URL.Path, "/customize") {
 		resp = map[string]any{"relatedResources": []any{}}
+	}
+	if strings.HasSuffix(req.URL.Path, "/customize-gadgets") {
+		resp = map[string]any{"relatedResources": []any{map[string]any{"apiVersion": "other.io/v1beta1", "resource": "gadgets"}}}
 	}
 	b, _ := json.Marshal(resp)
 	return &http.Response{StatusCode: 200, Status: "200 OK", Proto: "HTTP/1.1", ProtoMajor: 1, ProtoMinor: 1,
@@ -140,7 +144,7 @@ func (s c20Spec) urlPrefix(name string) string {
 	return fmt.Sprintf("http://hook.invalid/%s/v%d/", name, s.Version)
 }
 
-var c20Variants = []string{"plain", "plain", "plain", "timeout-zero", "etag-full", "etag-no-cleanup", "etag-no-timeout", "etag-disabled", "resync", "customize",
+var c20Variants = []string{"plain", "plain", "plain", "timeout-zero", "etag-full", "etag-no-cleanup", "etag-no-timeout", "etag-disabled", "resync", "customize", "customize-related", "customize-related",
 	"unknown-parent", "unknown-child", "no-hooks", "empty-webhook", "service-no-path", "service-ok", "no-status-crd", "strict", "finalize"}
 
 func (s c20Spec) webhook(name, hook string) *v1alpha1.Hook {
@@ -211,6 +215,9 @@ func (s c20Spec) CompositeObj(name string, labels map[string]string) *v1alpha1.C
 		if s.Variant == "customize" {
 			cc.Spec.Hooks.Customize = s.webhook(name, "customize")
 		}
+		if s.Variant == "customize-related" {
+			cc.Spec.Hooks.Customize = s.webhook(name, "customize-gadgets")
+		}
 		if s.Variant == "finalize" {
 			cc.Spec.Hooks.Finalize = s.webhook(name, "finalize")
 		}
@@ -237,6 +244,9 @@ func (s c20Spec) DecoratorObj(name string, labels map[string]string) *v1alpha1.D
 		dc.Spec.Hooks = &v1alpha1.DecoratorControllerHooks{Sync: s.webhook(name, "sync")}
 		if s.Variant == "customize" {
 			dc.Spec.Hooks.Customize = s.webhook(name, "customize")
+		}
+		if s.Variant == "customize-related" {
+			dc.Spec.Hooks.Customize = s.webhook(name, "customize-gadgets")
 		}
 		if s.Variant == "finalize" {
 			dc.Spec.Hooks.Finalize = s.webhook(name, "finalize")
@@ -265,9 +275,9 @@ func pollFor(d time.Duration, f func() bool) bool {
 // PropC20: hosted controllers follow their CompositeController/DecoratorController objects.
 func PropC20(c *vs.Case, kind string, env *C20Env, drv C20Driver) error {
 	names := []string{"alpha", "beta"}[:1+c.Int(2)]
-	model := map[string]*c20Spec{}   // name -> spec that must be running (nil / absent: nothing)
-	objects := map[string]*c20Spec{} // name -> spec of the stored controller object
-	instances := map[string]string{} // name -> instance identity as of the last check
+	model := map[string]*c20Spec{}    // name -> spec that must be running (nil / absent: nothing)
+	objects := map[string]*c20Spec{}  // name -> spec of the stored controller object
+	instances := map[string]string{}  // name -> instance identity as of the last check
 	stopped := map[string]time.Time{} // url prefix -> when that instance had to be gone
 	history := map[string][]c20Spec{} // name -> valid specs it has had
 	var log []string
@@ -302,8 +312,35 @@ func PropC20(c *vs.Case, kind string, env *C20Env, drv C20Driver) error {
 	env.W.Sim.ExtCreate("plains", map[string]any{"apiVersion": "ex.io/v1", "kind": "Plain", "metadata": map[string]any{"name": "pre", "namespace": "ns1"}, "spec": map[string]any{}})
 	nontrivial := false
 	nEvents := 2 + c.Int(7)
+	// gate: while armed, LIST requests for gadgets (the related resource) hang in the API server
+	var gateMu sync.Mutex
+	var gate chan struct{}
+	getGate := func() chan struct{} { gateMu.Lock(); defer gateMu.Unlock(); return gate }
+	setGate := func(g chan struct{}) { gateMu.Lock(); gate = g; gateMu.Unlock() }
+	var gateWaiters int32
+	gatedName := ""
+	env.W.Sim.Before = func(r *vs.Request) *vs.Fault {
+		if g := getGate(); g != nil && r.Verb == "list" && r.Def.Resource == "gadgets" {
+			atomic.AddInt32(&gateWaiters, 1)
+			<-g
+		}
+		return nil
+	}
+	defer func() {
+		if g := getGate(); g != nil {
+			close(g)
+			setGate(nil)
+		}
+		env.W.Sim.Before = nil
+	}()
 	for ev := 0; ev < nEvents; ev++ {
 		name := names[c.Int(len(names))]
+		forcedStop := false
+		if gatedName != "" {
+			// the controller whose worker hangs in the related informer's first LIST is stopped right now
+			name = gatedName
+			forcedStop = true
+		}
 		cur := objects[name]
 		var what string
 		switch {
@@ -316,7 +353,13 @@ func PropC20(c *vs.Case, kind string, env *C20Env, drv C20Driver) error {
 			objects[name] = &s
 			what = fmt.Sprintf("create %s v%d (%s)", name, s.Version, s.Variant)
 		default:
-			switch c.Weighted(3, 2, 2, 1) {
+			op := 0
+			if forcedStop {
+				op = []int{0, 2}[c.Int(2)]
+			} else {
+				op = c.Weighted(3, 2, 2, 1)
+			}
+			switch op {
 			case 3:
 				// back to a spec this name has run before (same webhook URL: metrics collectors, ETag caches are re-created)
 				hist := history[name]
@@ -398,6 +441,15 @@ func PropC20(c *vs.Case, kind string, env *C20Env, drv C20Driver) error {
 		if prev != nil && (model[name] == nil || model[name].Version != prev.Version) {
 			stopped[prev.urlPrefix(name)] = time.Time{} // stamped after Reconcile returns
 		}
+		if gatedName == "" && kind == "composite" && model[name] != nil && model[name].Variant == "customize-related" && (prev == nil || prev.Version != model[name].Version) && ev+1 < nEvents && c.Bool() {
+			setGate(make(chan struct{}))
+			atomic.StoreInt32(&gateWaiters, 0)
+			gatedName = name
+			what += " [related LIST hangs]"
+			c.Class("stop-during-related-informer-sync")
+		} else if forcedStop {
+			gatedName = ""
+		}
 		// reconcile
 		var recErr error
 		panicked := ""
@@ -410,6 +462,7 @@ func PropC20(c *vs.Case, kind string, env *C20Env, drv C20Driver) error {
 			recErr = drv.Reconcile(name)
 		}()
 		log = append(log, fmt.Sprintf("%s -> reconcile err=%v", what, recErr))
+
 		if panicked != "" {
 			v := vs.Violf("C20/reconcile-panicked", "%s: Reconcile panicked (a hosted-controller configuration must never take the process down): %s", what, panicked)
 			return c.Known(v)
@@ -419,6 +472,17 @@ func PropC20(c *vs.Case, kind string, env *C20Env, drv C20Driver) error {
 			if t.IsZero() {
 				stopped[k] = now
 			}
+		}
+		if forcedStop && getGate() != nil {
+			close(getGate()) // the API server answers again
+			setGate(nil)
+			nontrivial = true
+		}
+		if gatedName != "" {
+			// let the worker reach the hanging LIST, then go straight to the stopping event
+			blocked := pollFor(3*time.Second, func() bool { return atomic.LoadInt32(&gateWaiters) > 0 })
+			log = append(log, fmt.Sprintf("worker blocked in related informer sync: %v", blocked))
+			continue
 		}
 		// 1. the set of hosted controllers equals the model
 		running := drv.Running()
@@ -445,10 +509,13 @@ func PropC20(c *vs.Case, kind string, env *C20Env, drv C20Driver) error {
 		for _, s := range model {
 			wantSubs[s.Parent]++
 			wantSubs[s.Child]++
+			if s.Variant == "customize-related" && s.Parent == "things" {
+				wantSubs["gadgets"]++ // created on the first sync of a parent; parents exist
+			}
 		}
 		if !pollFor(5*time.Second, func() bool {
 			got := env.Factory.VerifRefCounts()
-			for _, r := range []string{"things", "plains", "widgets", "configmaps"} {
+			for _, r := range []string{"things", "plains", "widgets", "configmaps", "gadgets"} {
 				d := env.W.Sim.Def(r)
 				if got[r+"."+d.APIVersion()] != wantSubs[r] {
 					return false
